@@ -335,3 +335,20 @@ Theorem c05_guard_by_address_refuted :
   snd (grun pair_eqb key_user_addr ginit w_guard_two_addresses) = [true; true] /\
   snd (grun N.eqb key_user ginit w_guard_two_addresses) = [true; false].
 Proof. exact guard_by_address. Qed.
+
+(* ... and under the user key this guard IS the one of Model.Session's Totp step: with `last_totp` = the value
+   the guard compares with and `saved_totp` = the persisted counter (g_rel), a Totp request of user u presenting
+   a code of her own secret for a step in the window — with any certificate, write fault and read source — and
+   `gstep` on the corresponding request (from any address) keep the relation, accept together (the step is
+   recorded as spent exactly then), and a refusal leaves the session state as it was *)
+Theorem c05_totp_guard_is_session : forall k cert fault s cs u l stp g a,
+  totp_monotone k = true -> totp_mem_guard k = true ->
+  auth k s cert cs any_mask = Some (u, l) ->
+  has_totp (devs k u) = true -> (totp_step (now s) - 1 <= stp <= totp_step (now s) + 1)%Z ->
+  g_rel s g ->
+  let r := {| g_user := u; g_addr := a; g_cached := from_cache k; g_fault := fault; g_code := Some stp |} in
+  let s' := fst (step_req k cert fault s (Totp cs (TCode u stp))) in
+  g_rel s' (fst (gstep N.eqb key_user g r)) /\
+  (snd (gstep N.eqb key_user g r) = true <-> spent s' = OtTotp u stp :: spent s) /\
+  (snd (gstep N.eqb key_user g r) = false -> s' = s).
+Proof. exact totp_step_is_guard. Qed.
